@@ -280,3 +280,37 @@ func VC06_shapes() {
 	v, ok := f.Count[name]
 	vrt.Assert(len(f.Count) == 1 && ok && v == val, "Parse: a name of the maximum length is read back")
 }
+
+// VC06_stackname: a well-formed file holding one stack counter whose encoded name uses
+// ditto marks after an import path of one or two characters: Parse returns it under the
+// expanded name.
+func VC06_stackname() {
+	data := make([]byte, c6Page)
+	copy(data, c6Prefix)
+	meta := "A: b\n"
+	hdrLen := (28 + 4 + len(meta) + 31) / 32 * 32
+	c6wr32(data, 28, uint32(hdrLen))
+	copy(data[32:], meta)
+	p := vrt.String(1 + vrt.Choose(2))
+	for i := 0; i < len(p); i++ {
+		vrt.Assume(p[i] >= 'a' && p[i] <= 'e')
+	}
+	name := "s\nx/y.a:1\n" + p + ".f:1\n\".g:2\n\".h:3"
+	want := "s\nx/y.a:1\n" + p + ".f:1\n" + p + ".g:2\n" + p + ".h:3"
+	n := len(name)
+	val := vrt.U64()
+	off := (hdrLen + 4 + 2048 + 31) / 32 * 32
+	c6wr64(data, off, val)
+	c6wr32(data, off+8, uint32(n)|0xff000000)
+	b := vrt.ConcreteU32(hash(name)) // the bucket is case-split
+	c6wr32(data, hdrLen+4+4*int(b), uint32(off))
+	copy(data[off+16:], name)
+	c6wr32(data, hdrLen, uint32(off+(16+n+31)/32*32))
+	f, err := Parse("f", data)
+	vrt.Assert(err == nil, "Parse: accepts a well-formed file with a stack counter")
+	if err != nil {
+		return
+	}
+	v, ok := f.Count[want]
+	vrt.Assert(len(f.Count) == 1 && ok && v == val, "Parse: a stack counter is returned under its expanded name")
+}
